@@ -45,6 +45,12 @@ let show_oneliner = function
   | Crash _ -> "CRASH" | OutOfFuel -> "OUTOFFUEL"
 let default_int = n_of_int 4242
 
+(* the callback family of op c7: reject iff the first byte or the length of the entry occurs in rej *)
+let cf_of (rej : string) (s : n list) : bool =
+  let r = ints_of_hex rej in
+  let first = (match s with [] -> 0 | b :: _ -> int_of_n b) in
+  List.exists (fun x -> x = first || x = List.length s) r
+
 let byte1 s = match bytes_of_hex s with [b] -> b | _ -> failwith "byte"
 let len s = List.length (bytes_of_hex s)
 
@@ -62,6 +68,16 @@ let model fs = match fs with
   | [("c0" | "c1" | "c2" | "c3") as op; c] ->
       show_lload (lloadfile (nat_of_int (Char.code op.[1] - 48)) (bytes_of_hex c))
   | ["c4"; c] -> show_list (loadlist (bytes_of_hex c))
+  | ["c7"; c; rej] ->
+      (match loadlist_arr (cf_of rej) (fun _ -> n_of_int 170) (bytes_of_hex c) with
+       | Ok LErr -> "E EINVAL"
+       | Ok (LOk None) -> "R 0"
+       | Ok (LOk (Some b)) ->
+           (match read_ptrs b.mem b.ptrs with
+            | Ok l -> "R " ^ string_of_int (List.length l) ^
+                      String.concat "" (List.map (fun (p, e) -> " " ^ string_of_int (int_of_nat p) ^ " " ^ hex_of_bytes e) l)
+            | Crash _ -> "CRASH" | OutOfFuel -> "OUTOFFUEL")
+       | Crash _ -> "CRASH" | OutOfFuel -> "OUTOFFUEL")
   | ["c5"; c] -> show_int (loadint (bytes_of_hex c) default_int)
   | ["c6"; c] -> show_oneliner (loadoneliner (bytes_of_hex c))
   | _ -> "BADCASE"
@@ -96,11 +112,36 @@ let spec fs obs = if model fs = "BADCASE" then "pre" else match fs with
       (match list_spec (bytes_of_hex c) with
        | None -> verdict ["E"; "EINVAL"] obs
        | Some es -> verdict ("R" :: string_of_int (List.length es) :: List.map hex_of_bytes es) obs)
+  | ["c7"; c; rej] ->
+      (match list_spec (bytes_of_hex c) with
+       | None -> verdict ["E"; "EINVAL"] obs
+       | Some es ->
+           let keep = List.filter (fun e -> not (cf_of rej e)) es in
+           let n = List.length keep in
+           let rec lay p = function [] -> [] | e :: r -> string_of_int p :: hex_of_bytes e :: lay (p + List.length e + 1) r in
+           verdict ("R" :: string_of_int n :: (if n = 0 then [] else lay (8 * (n + 1)) keep)) obs)
   | ["c5"; c] ->
       (match int_spec (bytes_of_hex c) default_int with
        | None -> verdict ["E"; "EINVAL"] obs
        | Some v -> verdict ["R"; dec_of_n v] obs)
-  | [("c0" | "c1" | "c2" | "c6"); _] -> (match obs with ["CRASH"] | ["TIMEOUT"] -> "bad" | _ -> "pre")
+  | ["c0"; c] -> let b = bytes_of_hex c in verdict ["R"; string_of_int (List.length b); hex_of_bytes b] obs
+  | ["c1"; c] -> let b = cat (plain_lines (bytes_of_hex c)) in verdict ["R"; string_of_int (List.length b); hex_of_bytes b] obs
+  | ["c2"; c] ->
+      let b = bytes_of_hex c in
+      (match list_spec b with
+       | None -> verdict ["E"; "EINVAL"] obs
+       | Some [] -> verdict ["R"; "0"; "-"] obs
+       | Some es ->
+           (match obs with
+            | ["R"; n; img] when n = string_of_int (List.length b) ->
+                let i = bytes_of_hex img in
+                if List.length i = List.length b && pieces i = es then "ok" else "bad"
+            | _ -> "bad"))
+  | ["c6"; c] ->
+      (match oneliner_spec (bytes_of_hex c) with
+       | OneNone -> verdict ["E"; "ENOENT"] obs
+       | OneError -> verdict ["E"; "EINVAL"] obs
+       | OneLine l -> verdict ["R"; string_of_int (List.length l); hex_of_bytes l] obs)
   | _ -> "BADCASE"
 
 let () =
